@@ -926,6 +926,35 @@ func main() {
 		t, _, _ := g.randomSci()
 		g.addLib(t)
 	}
+	// exhaustive sweep: every text up to length 3 (4 in the thorough tier) over a small numeric alphabet, through
+	// BigIntegerFromString and through math/big directly - this walks every transition of nat.scan / scanExponent
+	{
+		alpha := "019afFxXbo_.+-eEpP/ "
+		maxLen := 3
+		if thorough {
+			alpha = "019afxbo_.+-eEp/"
+			maxLen = 4
+		}
+		n := 0
+		var rec func(cur []byte)
+		rec = func(cur []byte) {
+			if len(cur) > 0 {
+				g.addParse(0, cur, "sweep", nil, 0)
+				g.addLib(string(cur))
+				n++
+			}
+			if len(cur) == maxLen {
+				return
+			}
+			for i := 0; i < len(alpha); i++ {
+				rec(append(append([]byte{}, cur...), alpha[i]))
+			}
+		}
+		rec(nil)
+		st.Extra["sweep_alphabet"] = alpha
+		st.Extra["sweep_max_len"] = maxLen
+		st.Extra["sweep_texts"] = n
+	}
 	// JSON-level inputs of the integer types
 	for _, j := range []string{`null`, `true`, `false`, `{}`, `[]`, `[1]`, `{"a":1}`, `""`, `" "`, `"12"`, `"\x31"`, `"1\n"`, `"0x1f"`, ` 12 `, "\t\"0x10\"\n",
 		`12 13`, `"12" x`, `12,`, `{!badJSON`, ``, `"`, `"12`, `12"`, `'12'`, `0x10`, `+5`, `.5`, `5.`, `01`, `-`, `1e`, `1.0`, `-1.0`, `1.5`, `1e2`, `1E+2`, `-0`, `-0.0`, `0e5`, `1e-0`,
@@ -947,6 +976,15 @@ func main() {
 			}
 		}
 		st.Hit("go-oracle:tiny")
+	}
+	// beyond math/big's limit for exact expansion: an error, or (should the limit move) the exact value - never a rounded one
+	for _, k := range []int64{1000001, 1500000} {
+		text := fmt.Sprintf("1e%d", k)
+		rr := runParseRaw(0, []byte(text))
+		if rr.cls == 2 || (rr.cls == 0 && rr.val.Cmp(pow10(k)) != 0) {
+			st.ImplFailures = append(st.ImplFailures, map[string]interface{}{"what": "exponent text accepted with a value that is not its exact value", "input": text, "impl": fmt.Sprintf("class %d, %d bits", rr.cls, rr.val.BitLen())})
+		}
+		st.Hit("go-oracle:beyond-limit")
 	}
 	for _, k := range []int64{1000, 100000, 1000000} {
 		text := fmt.Sprintf("1e%d", k)
@@ -1078,7 +1116,7 @@ func main() {
 		panic(err)
 	}
 	st.Evaluations = g.w.Count()
-	st.Rule = "integers 0,1,2^k-1,2^k,2^k+1 (k in 8,16,31,32,53,63,64,128,255,256,260), 10^k, random 1..300-bit and their negatives, each written in canonical decimal, 0x-hex (lower/upper/mixed, leading zeros), plain JSON number, exponent forms (fraction exactly consumed / one digit too many / trailing zeros in the exponent / compensated and uncompensated negative exponents), fractional texts (.0, .000, .5, a 1 beyond 256-bit precision) through BigIntegerFromString, HexInteger and HexUint64 (JSON string and JSON number); random valid decimal/exponent texts with their exact value; a fixed list of malformed texts and random texts over the numeric alphabet (also run through math/big directly to validate the model of SetString/ParseFloat/Rat.SetString); addresses (EIP-55 vectors, letters-only, digits-only, random) in 3 casings x 2 prefixes, length 19/21, odd, non-hex, other prefixes; byte strings of length 0..1024 in 3 casings x 2 prefixes, odd and non-hex. distinct = distinct (entry point, input); non-trivial = more than one character / more than 3 bits"
+	st.Rule = "integers 0,1,2^k-1,2^k,2^k+1 (k in 8,16,31,32,53,63,64,128,255,256,260), 10^k, random 1..300-bit and their negatives, each written in canonical decimal, 0x-hex (lower/upper/mixed, leading zeros), plain JSON number, exponent forms (fraction exactly consumed / one digit too many / trailing zeros in the exponent / compensated and uncompensated negative exponents), fractional texts (.0, .000, .5, a 1 beyond 256-bit precision) through BigIntegerFromString, HexInteger and HexUint64 (JSON string and JSON number); random valid decimal/exponent texts with their exact value; a fixed list of malformed texts, random texts over the numeric alphabet and every text up to length sweep_max_len over sweep_alphabet (also run through math/big directly to validate the model of SetString/ParseFloat/Rat.SetString); addresses (EIP-55 vectors, letters-only, digits-only, random) in 3 casings x 2 prefixes, length 19/21, odd, non-hex, other prefixes; byte strings of length 0..1024 in 3 casings x 2 prefixes, odd and non-hex. distinct = distinct (entry point, input); non-trivial = more than one character / more than 3 bits"
 	if err := st.Write(filepath.Join(*out, "stats_C19.json")); err != nil {
 		panic(err)
 	}
